@@ -208,6 +208,7 @@ vh::Outcome run_locks(const vh::Case& c, Prop prop) {
                                     if (h) vrt::fail("unlock-not-null", "handle is non-null after unlock()");
                                     if (enabled && owns_excl()) vrt::fail("unlock-not-released", "mutex still owned after handle.unlock()");
                                     vrt::step();
+                                    if (op.b & 4) { h.unlock(); if (h) vrt::fail("unlock-not-null", "handle is non-null after a second unlock()"); }   // a repeated unlock() is a no-op (the model flags an unlock by a non-owner)
                                 } else if (variant == 2) {
                                     auto h2(std::move(h));
                                     if (!h2) vrt::fail("move-lost", "moved-to handle is null");
